@@ -67,6 +67,10 @@ def gen(rng, tier):
             config.append('%s = @mk()' % key)
           elif r < 0.3:
             config.append('%s = @%s/gin.singleton()' % (key, rng.choice(KEYS)))
+          elif r < 0.42:
+            # a macro: evaluating it is a configurable call with a record of its
+            # own
+            config.append('%s = %%MAC%d' % (key, rng.randint(0, 2)))
           else:
             config.append('%s = %d' % (key, rng.randint(10, 99)))
   nuse = rng.randint(1, 3)
@@ -77,6 +81,8 @@ def gen(rng, tier):
     config.append('u%d.obj = @%s/gin.singleton()' % (i, k))
   for k in KEYS:
     config.append('%s/gin.singleton.constructor = @mk' % k)
+  for i in range(3):
+    config.append('MAC%d = %d' % (i, 700 + i))
   ctor_yields = rng.randint(0, 3)
   mk_kind = rng.choice(['tok', 'tok', 'empty_list', 'falsy'])
   # fault injection: the first construction attempt(s) of one singleton raise
@@ -121,7 +127,8 @@ def gen(rng, tier):
       pol = {'kind': 'pct', 'd': rng.choice([1, 2, 3])}
     phases.append({'threads': threads,
                    'sched': {'policy': pol, 'seed': rng.getrandbits(32)},
-                   'clear_after': rng.random() < 0.6})
+                   'clear_after': rng.random() < 0.6,
+                   'clear_constants': rng.random() < 0.4})
   return {'probes': specs, 'users': users, 'config': config,
           'ctor_yields': ctor_yields, 'mk_kind': mk_kind, 'phases': phases,
           'ctor_fault': ctor_fault,
@@ -342,7 +349,7 @@ def _execute(case, mode, length_hints=None):
     if out['failure'] is not None:
       break
     if phase.get('clear_after'):
-      gin.clear_config()
+      gin.clear_config(clear_constants=bool(phase.get('clear_constants')))
       gin.parse_config('\n'.join(case['config']))
   out['log'] = log
   out['faults_fired'] = state['faults_fired']
